@@ -253,6 +253,8 @@ var c10Pinned = []c10Term{
 	{ID: "struct-ref-named-enum-member", Degrade: 1, Src: `(defs "Root" ("Root" (struct (field "se" (ref "S") false false (o ("e" (s "b")))))) ("S" (struct (field "e" (ref "E") true false -) (field "p" (bool) false false -))) ("E" (enumS "a" "b")))`},
 	{ID: "struct-ref-union-member", Degrade: 1, Src: `(defs "Root" ("Root" (struct (field "su" (ref "S") false false (o ("u" (s "x")))))) ("S" (struct (field "u" (oneOfScalars (string - - false) (int 64 true - -)) true false -) (field "p" (bool) false false -))))`},
 	{ID: "struct-inline", Degrade: 1, Src: `(defs "Root" ("Root" (struct (field "a" (struct (field "p" (string - - false) false false -) (field "q" (int 64 true - -) false false -)) false false (o ("p" (s "x")))))))`},
+	{ID: "struct-ref-const-member", Degrade: 1, Formats: []string{"cue"}, Src: `(defs "Root" ("Root" (struct (field "opts" (ref "Options") false false (o ("mode" (n "9")) ("name" (n "-13")))))) ("Options" (struct (field "mode" (const (n "9")) false false -) (field "name" (int 32 true - -) false false -))))`},
+	{ID: "list-of-enums", Degrade: 1, Src: `(defs "Root" ("Root" (struct (field "le" (array (ref "E")) false false (a (s "b") (s "a"))))) ("E" (enumS "a" "b")))`},
 	{ID: "struct-inline-required", Degrade: 1, Formats: []string{"cue"}, Src: `(defs "Root" ("Root" (struct (field "y1" (struct (field "tags" (int 64 true - -) false false -) (field "b" (int 64 true - -) true false -)) true false (o ("tags" (n "8")))) (field "when" (const false) false false -))))`},
 	{ID: "struct-nullable-ref", Degrade: 1, Src: `(defs "Root" ("Root" (struct (field "a" (ref "S") false true (o ("p" (s "x")))))) ("S" (struct (field "p" (string - - false) false false -))))`},
 	{ID: "union", Degrade: 1, Src: `(defs "Root" ("Root" (struct (field "u" (oneOfScalars (string - - false) (int 64 true - -) (array (bool))) false false (s "4")) (field "v" (oneOfScalars (string - - false) (int 64 true - -)) true false (n "7")))))`},
